@@ -113,7 +113,47 @@ pub fn oracle(st: &State, hist: &[RoundRec], flow: FlowId, rounds_of_flow: &[usi
     bad
 }
 
+pub fn replay(path: &str) -> i32 {
+    let s = std::fs::read_to_string(path).expect("MACHINERY: cannot read replay file");
+    let v: serde_json::Value = serde_json::from_str(&s).expect("MACHINERY: replay JSON");
+    let r = if v.get("replay").is_some() { &v["replay"] } else { &v };
+    let Some(hist_idx) = r["history"].as_array() else {
+        println!("this C10 artefact comes from a real execution: cell/topo/choices are in the file; re-run ./check C10 --tier quick to reproduce");
+        return 2;
+    };
+    let first_ttl = r["first_ttl"].as_u64().unwrap() as u8;
+    let al = alphabet(first_ttl);
+    let mut st = State::new(StateConfig { max_samples: 4, max_flows: 1 });
+    let mut hist = vec![];
+    let mut bad = vec![];
+    for (i, x) in hist_idx.iter().enumerate() {
+        let sh = &al[x.as_u64().unwrap() as usize];
+        let rr = stateexp::build(sh, i, (i as u16) * 16);
+        println!("round {i}: {:?} largest_ttl {}", sh.outs, rr.largest_ttl);
+        stateexp::apply(&mut st, &rr);
+        hist.push(rr);
+        let all: Vec<usize> = (0..hist.len()).collect();
+        bad = oracle(&st, &hist, State::default_flow_id(), &all);
+    }
+    if let Ok(h) = mc::catch(|| st.hops().iter().map(trippy_core::Hop::ttl).collect::<Vec<_>>()) {
+        println!("hops(): {h:?}");
+    }
+    for (k, d) in &bad {
+        println!("DISCREPANCY {k}: {d}");
+    }
+    if bad.is_empty() {
+        println!("replay: property held");
+        0
+    } else {
+        println!("VIOLATION property=C10 replay={path}");
+        1
+    }
+}
+
 pub fn run(args: &Args) -> i32 {
+    if let Some(path) = &args.replay {
+        return replay(path);
+    }
     let tier = args.tier;
     let mut rep = Report::new("C10", tier, "model_checking");
     let findings: Mutex<Findings> = Mutex::new(Findings::new());
